@@ -32,11 +32,19 @@ where
     T: Hash + Eq + Clone + Ord + Display + Send + Sync,
     A: Clone + Send + Sync,
 {
-    let neighbors_map = get_neighbors_of_nodes(node_names, graph);
-    neighbors_map
-        .clone()
+    // the neighbors of *every* node are needed: the neighbors of the requested nodes are
+    // looked up too
+    let neighbors_map = get_neighbors_of_nodes(None, graph);
+    let requested: HashSet<T> = match node_names.is_none() || node_names.unwrap().is_empty() {
+        true => neighbors_map.keys().cloned().collect(),
+        false => node_names.unwrap().iter().cloned().collect(),
+    };
+    requested
         .into_iter()
-        .map(|(v, v_nbrs)| get_triangles_and_degrees_for_node(v, v_nbrs, &neighbors_map))
+        .map(|v| {
+            let v_nbrs = neighbors_map.get(&v).unwrap().clone();
+            get_triangles_and_degrees_for_node(v, v_nbrs, &neighbors_map)
+        })
         .collect()
 }
 
